@@ -120,7 +120,7 @@ Lemma truncate_db_facts s n : CacheOK s -> LockZero s -> 1 <= lockpg s ->
   CacheOK s' /\ LockZero s' /\ lockpg s' = lockpg s /\ writeable s' = writeable s /\ wal_mode s' = wal_mode s /\
   txid s' = txid s /\ chk s' = chk s /\
   (forall q, 1 <= q -> dbc s' q = if n <? q then 0 else dbc s q) /\
-  (forall p, 1 <= p -> file_h s' p = if p <=? n then file_h s p else 0).
+  (forall p, 1 <= p -> file_h s' p = if p <=? n then file_h s p else 0) /\ pageN s' = pageN s.
 Proof.
   intros HC HL Hlk. unfold truncate_db, reset_after.
   set (sf := with_file s (firstn (N.to_nat n) (dbfile s))).
@@ -128,7 +128,7 @@ Proof.
   destruct (clear_from_spec (length (chk_pages sf)) sf n ltac:(lia) HCf HLf Hlk) as [C2 [L2 [E2 [W2 [M2 [P2 [T2 [K2 [F2 D2]]]]]]]]].
   cbn zeta in *.
   split; [exact C2|]. split; [exact L2|]. split; [exact E2|]. split; [exact W2|]. split; [exact M2|].
-  split; [exact T2|]. split; [exact K2|]. split; [exact D2|].
+  split; [exact T2|]. split; [exact K2|]. split; [exact D2|]. split; [|exact P2].
   intros p Hp. unfold file_h, file_pg. rewrite F2. change (dbfile sf) with (firstn (N.to_nat n) (dbfile s)).
   fold (h_at (firstn (N.to_nat n) (dbfile s)) (N.to_nat (p - 1))). rewrite firstn_h.
   fold (h_at (dbfile s) (N.to_nat (p - 1))).
@@ -239,7 +239,7 @@ Proof.
     destruct (fold_write_facts (wpages s) s k_pos0 k_nodup0 Wl Wc Wz) as [B1 [B2 [B3 [B4 [B5 [B6 [B7 [B8 [B9 B10]]]]]]]]].
     set (sa := fold_left (fun a kv => write_db_page a (fst kv) (snd kv)) (wpages s) s) in *. cbn zeta in *.
     assert (1 <= lockpg sa) as Hlka by (rewrite B3; exact Wl).
-    destruct (truncate_db_facts sa lastc B1 B2 Hlka) as [T1 [T2 [T3 [T4 [T5 [T6 [T7 [T8 T9]]]]]]]].
+    destruct (truncate_db_facts sa lastc B1 B2 Hlka) as [T1 [T2 [T3 [T4 [T5 [T6 [T7 [T8 [T9 _]]]]]]]]].
     set (sb := truncate_db sa lastc) in *. cbn zeta in *.
     inversion H; subst s'. clear H.
     set (sf := with_wal (with_pos sb lastc (wal_mode sb) (txid sb) (chk sb) (ltxdir sb)) [] [] []).
